@@ -764,7 +764,13 @@ fn value_checks(rec: &mut Rec, map: &Beatmap, diff: &rosu_pp::Difficulty, label:
     }
     // the MODE-SPECIFIC gradual performance calculators have entry points of their own (next / nth / last): stepping one with
     // next() must give what the generic wrapper gives with next() (which goes through nth), and last() must give the last value
-    {
+    for origin in [None, Some(false), Some(true)] {
+        // (under the settings as given, and with either score origin spelled out: the origin decides how hold notes / slider
+        //  parts are judged and travels inside the Difficulty)
+        let diff = &match origin {
+            None => diff.clone(),
+            Some(l) => diff.clone().lazer(l),
+        };
         let st = score_state(2);
         let r = guarded(|| {
             let mut generic = GradualPerformance::new(diff.clone(), map);
